@@ -41,7 +41,7 @@ def handle : List String → Option String
     let tmo ← tmo.toNat?
     let ctr ← ctr.toNat?
     let ops ← if ops == "-" then some [] else (ops.splitOn ";").mapM parseOp
-    some (showState (run { timeoutMs := tmo, counter := ctr } ops))
+    some (showState (run { timeoutMs := tmo, counter := ctr, base := ctr } ops))
   | _ => none
 
 end AkVerif.ConnIO
